@@ -467,6 +467,9 @@ def run(chk):
     aead.rule_mac_source(chk, P, 'A1', floor=16)
     from . import srcdst
     srcdst.rule_out_reads(chk, P, 'O1', floor=150)
+    # the digest buffer of exactly the digest length: word counts of the C digest writers
+    from . import padding
+    padding.rule_digest_words(chk, P, 'P5')
 
 
 if __name__ == '__main__':
